@@ -140,10 +140,11 @@ theorem DErr.otherwise_hit {ds t} {loc : Env} {d : DSt} {c : Choice}
     DErr (.dirs (.otherwise :: ds) t) loc d :=
   DErr.step (fun _ => by simp [doc, hc, hm]) h
 
-theorem DErr.xexpr_call {f args} {loc : Env} {d : DSt} {vs m scope}
-    (hvs : evalArgs (dlook loc d) args = .ok vs) (hm : getDMacro d (dlook loc d f) = .ok m)
+theorem DErr.xexpr_call {f args} {loc : Env} {d : DSt} {fv vs m scope}
+    (hfv : eval (dlook loc d) f = .ok fv)
+    (hvs : evalArgs (dlook loc d) args = .ok vs) (hm : getDMacro d fv = .ok m)
     (hsc : bindParams m.params vs = .ok scope) (h : DErr (.dirs m.dirs m.target) (scope ++ loc) d) :
     DErr (.xexpr (.call f args)) loc d :=
-  DErr.step (fun _ => by simp [doc, hvs, hm, hsc, bind, Except.bind]) h
+  DErr.step (fun _ => by simp [doc, hfv, hvs, hm, hsc, bind, Except.bind]) h
 
 end Genshi.Tmpl
